@@ -19,6 +19,7 @@ CFGS = {
     'u4':  ('MC_FastSync_u4.cfg',  ['p1', 'p2'], 4),
     'u4m': ('MC_FastSync_u4m.cfg', ['p1', 'p2'], 4),
     'u3p': ('MC_FastSync_u3p.cfg', ['p1', 'p2', 'p3'], 4),
+    'u3q': ('MC_FastSync_u3q.cfg', ['p1', 'p2', 'p3'], 3),
     'f3':  ('MC_FastSync_f3.cfg',  ['p1', 'p2'], 3),
 }
 
@@ -115,9 +116,9 @@ def run(ctx, replay=None):
         return
 
     quick = ctx.tier == 'quick'
-    exhaustive = ['q', 'f3'] if quick else ['q', 'f3', 'u4', 'u4m', 'u3p']
-    graph_cfgs = {'q': (26, 200)} if quick else {'q': (26, 1200), 'u4': (34, 600), 'u3p': (34, 400)}
-    walks = {'q': 200} if quick else {'q': 300, 'u4': 500, 'u3p': 300}
+    exhaustive = ['q', 'f3'] if quick else ['q', 'f3', 'u4', 'u3q', 'u4m', 'u3p']
+    graph_cfgs = {'q': (26, 200)} if quick else {'q': (26, 1000), 'u4': (34, 500), 'u3q': (30, 400)}
+    walks = {'q': 200} if quick else {'q': 300, 'u4': 500, 'u3q': 400}
     all_traces = []
     for name in exhaustive:
         cfgfile = CFGS[name][0]
